@@ -361,10 +361,13 @@ def streams(ck, name, family, scale=1, faults=False, maxstream=4, sizes="1,2,3",
             ctx = read_ndjson_line(f, ev["c"])["ctx"]
             sig = "stream:%s:%s" % (json.dumps(ctx["pats"]),
                                     json.dumps([ev.get("stream"), ev.get("cap"), ev.get("script"),
-                                                ev.get("rfail"), ev.get("wfail"), ev.get("mode")]))
-            ck.violation("stream run on %s pats=%s ci=%s stream=%s cap=%s script=%s rfail=%s wfail=%s mode=%s: %s"
+                                                ev.get("rfail"), ev.get("wfail"), ev.get("mode"),
+                                                ev.get("rkind"), ev.get("wkind"), ev.get("accept")]))
+            ck.violation("stream run on %s pats=%s ci=%s stream=%s cap=%s script=%s rfail=%s(kind %s) wfail=%s(kind %s) "
+                         "writer accepts %s mode=%s: %s"
                          % (ctx["repr"], ctx["pats"], ctx["ci"], ev.get("stream"), ev.get("cap"),
-                            ev.get("script"), ev.get("rfail"), ev.get("wfail"), ev.get("mode"), r["why"]),
+                            ev.get("script"), ev.get("rfail"), ev.get("rkind"), ev.get("wfail"), ev.get("wkind"),
+                            ev.get("accept") or "everything", ev.get("mode"), r["why"]),
                          {"signature": sig, "kind": "stream-run", "ctx": ctx, "run": ev, "why": r["why"]})
     ck.traces += st.get("events", 0)
     ck.evaluations += st.get("events", 0)
